@@ -128,6 +128,29 @@ def counted_placed(ctx, flow, reach, copyfns):
                         for tg in C.targets_of(ctx, fn, a):
                             if callee_copies_before_true(ctx, tg, copyfns, set()):
                                 via = tg
+            if via is None:
+                # a verifier whose true answer follows calls that could not be resolved (a method of a record it was handed):
+                # the copy may be one of them
+                opaque = []
+                for b, lab in g.control_deps(cn):
+                    t = C.test_expr(b)
+                    for a in (C.atoms_of(t) if t is not None else []):
+                        if isinstance(a, ast.Call):
+                            level = list(C.targets_of(ctx, fn, a))
+                            reach_ = list(level)
+                            for _d in range(2):
+                                level = [t2 for tg in level for c2 in own_nodes(tg.node) if isinstance(c2, ast.Call) for t2 in C.targets_of(ctx, tg, c2) if t2 not in reach_]
+                                reach_.extend(level)
+                            for tg in reach_:
+                                for c3 in own_nodes(tg.node):
+                                    if isinstance(c3, ast.Call) and isinstance(c3.func, ast.Attribute) and not C.targets_of(ctx, tg, c3) and not ctx.res.call_targets(c3, tg) \
+                                            and not (isinstance(c3.func.value, ast.Name) and c3.func.value.id in ("os", "shutil", "logger", "logging")) \
+                                            and c3.func.attr not in ("append", "extend", "get", "items", "keys", "values", "update", "join", "split", "format", "debug", "info", "warning"):
+                                        opaque.append((tg, c3))
+                if opaque:
+                    ctx.undecided("C13.2", fn, "the count depends on %s, whose true answer follows `%s`, a call that could not be resolved: whether the copy happens there is not decided" % (
+                        opaque[0][0].qualname, norm(opaque[0][1])[:60]), call)
+                    continue
             ctx.decide("C13.2", fn, via is not None, "the counter callback is conditional on %s returning true, which happens only after the copy" % (via.qualname if via else ""),
                        "a file is counted as rebuilt although no copy of a verified candidate precedes the count", call)
     ctx.floor("counter callback sites", 2, n)
@@ -140,7 +163,8 @@ def callee_copies_before_true(ctx, f, copyfns, seen):
     seen = seen | {f}
     g = C.cfg_of(f)
     rets = [n for n in own_nodes(f.node) if isinstance(n, ast.Return) and n.value is not None]
-    copies = [C.stmt_node(ctx, f, c) for c in own_nodes(f.node) if isinstance(c, ast.Call) and any(t[0] == "pkg" and t[1] in copyfns for t in ctx.res.call_targets(c, f))]
+    copies = [C.stmt_node(ctx, f, c) for c in own_nodes(f.node) if isinstance(c, ast.Call) and (any(t[0] == "pkg" and t[1] in copyfns for t in ctx.res.call_targets(c, f))
+                                                                                                 or (C.targets_of(ctx, f, c) and all(t in copyfns for t in C.targets_of(ctx, f, c))))]
     ok_any = False
     for r in rets:
         v = r.value
@@ -148,6 +172,21 @@ def callee_copies_before_true(ctx, f, copyfns, seen):
             continue
         rn = C.stmt_node(ctx, f, r)
         if any(g.dominates(c, rn) for c in copies if c is not None):
+            ok_any = True
+            continue
+        # the selected candidates are copied one by one in a loop that the answer follows: every element is placed before `true`
+        looped = False
+        for c in copies:
+            if c is None or c.ast is None:
+                continue
+            par = ctx.prog.parent.get(c.ast)
+            while par is not None and par is not f.node and not isinstance(par, (ast.For, ast.While)):
+                par = ctx.prog.parent.get(par)
+            if isinstance(par, ast.For) and par in g.of and g.dominates(g.of[par], rn):
+                bs = C.succ_by_label(g.of[par], "iter")
+                if bs and g.must_pass(bs[0], g.of[par], {c}) and not any(isinstance(x, (ast.Break, ast.Return)) for st_ in par.body for x in ast.walk(st_)):
+                    looped = True
+        if looped:
             ok_any = True
             continue
         # `if X: copy(...)` followed by `return X` (or `self.result = X; return self.result`): a truthy X implies the copy ran
